@@ -23,6 +23,15 @@ of the derived scene - recomputed from its RAW graph records and geometry arrays
 any scene read - must be the source placements scaled / moved accordingly, its own cached reads
 must agree, and a deep snapshot of the source (array bytes, raw graph records) must not change.
 
+Round 5: the in-place convenience routes `apply_translation` (a vector of a few units of the scene - at most 1e-8 per
+component in the `small` regime -, a step that is small next to the scene but a hundred times the tolerance) and
+`apply_scale` (one factor, per axis, within 1e-5 of one) are derived operations too; and the derived operations RUN
+TWICE with a frame added in between (`derive_again`: everything derived once incl. the sub-scene of the base frame, a
+new instance / geometry hung below the base frame or an inner frame, often a second one below the first, then
+sub-scenes / apply_transform / apply_translation / copy / + again).  A key of the second round carries
+`history=derived_operations_then_new_frame_then_derived_again` when the same operation on the same scene rebuilt from
+scratch (same edits, nothing derived before) is judged right.
+
 Regimes (set per scenario, see `regime()`): exact float64 matrices and coordinates of order 1 (absolute
 1e-6 x size); `lowprec` - rotation factors of rigid / similarity edges as a float32 or six-decimal source
 delivers them (judged at the documented repair_rigid = 1e-5 x size: re-orthogonalising a rigid world matrix is
@@ -78,7 +87,10 @@ RULE = (
     "family (battery + 1 random scene in 8): one of {mesh / path with an unreferenced vertex, paths with arcs, Box / "
     "Cylinder primitive, VoxelGrid} instanced 1-3 times next to ordinary geometry, graph edits and geometry transforms "
     "only. Histories may end with the base frame moved to another frame of the tree (reads only); derived operations "
-    "include scale factors within 1e-5 of one and the subscene of inner and leaf frames that carry an instance. A case is one (scene, edits, derived op) execution; distinct = "
+    "include scale factors within 1e-5 of one and the subscene of inner and leaf frames that carry an instance, the "
+    "apply_translation / apply_scale routes (vectors <= 1e-8 per component in the small regime, steps of 1e-4 x size), and - "
+    "every other battery scene, 40 % of the random ones - a second round of derived operations after a new frame (or a chain "
+    "of two) was added. A case is one (scene, edits, derived op) execution; distinct = "
     "distinct (forest shape, kinds per frame, edge classes, edit kinds, operation, option class); non-trivial "
     "= the scene has at least one placed instance whose world matrix is not the identity."
 )
@@ -1823,6 +1835,17 @@ def derived_ops(rng, pyrng, sm, battery):
         M3 = np.eye(4)
         M3[:3, 3] = np.array([3.0, -1.0, 2.0]) * sm.unit
         ops.append(("apply_transform", "translation", {"matrix": M3.tolist()}))
+    # the convenience routes to the same in-place transform (`Geometry.apply_translation` / `apply_scale`, which
+    # `Scene` inherits): a vector of a few units of the scene (<= 1e-8 per component in the `small` regime), a step
+    # that is small next to the scene but a hundred times the tolerance, factors for every axis / per axis / close
+    # to one
+    ops.append(("apply_translation", "vector", {"translation": (np.array([3.0, -1.0, 2.0]) * sm.unit).tolist()}))
+    if extras:
+        ops.append(("apply_scale", "uniform", {"scale": 2.0 if battery else float(pyrng.choice((0.5, 2.0, 10.0)))}))
+        ops.append(("apply_translation", "small_step", {"rel": 1e3 * TOL.r, "direction": [1.0, -1.0, 0.5]}))
+        ops.append(("apply_scale", "axis", {"scale": [1.0, 2.0, 3.0]}))
+        if sm.regime != "lowprec":
+            ops.append(("apply_scale", "uniform_near_one", {"scale": 1.00001 if (battery or pyrng.random() < 0.5) else 0.99999}))
     # the copy is edited afterwards (geometry reference of a node, an edge, vertices, a geometry deleted):
     # the source must not notice
     ops.append(("copy", "then_edit", {}))
@@ -1935,7 +1958,7 @@ def run_derived(run, scene, sm, op, cls, par, case, worlds):
 
     near_one = cls.endswith("_near_one")
     kcls = cls.replace("_near_one", "")  # a factor close to one is an option of the same operation
-    opkey = op if (op in ("copy", "rezero", "apply_transform", "convert_units") and cls != "then_edit") else "%s:%s" % (op, kcls)
+    opkey = op if (op in ("copy", "rezero", "apply_transform", "convert_units", "apply_translation") and cls != "then_edit") else "%s:%s" % (op, kcls)
     inst = "some" if sm.forest.instances() else "none"
     # operations that go through the edge-list export inherit a defect recorded under C09
     cause = ""
@@ -1956,10 +1979,24 @@ def run_derived(run, scene, sm, op, cls, par, case, worlds):
     src = scene
     extra_sources = []
     try:
-        if op in ("rezero", "apply_transform"):
+        if op in ("rezero", "apply_transform", "apply_translation", "apply_scale"):
             src = None  # in-place operations run on a copy; the copy is what must change
             D = scene.copy()
-            if op == "rezero":
+            if op == "apply_translation":
+                t = np.array(par["translation"], dtype=np.float64) if "translation" in par else (
+                    par["rel"] * S * np.array(par["direction"], dtype=np.float64))
+                D.apply_translation(t.tolist() if cls == "vector" else t)
+                Tm = np.eye(4)
+                Tm[:3, 3] = t
+                expected = expected_from(sm, Tm, worlds)
+            elif op == "apply_scale":
+                sc = par["scale"]
+                D.apply_scale(sc)
+                Tm = np.eye(4)
+                Tm[:3, :3] = np.diag([sc] * 3 if kcls == "uniform" else sc)
+                expected = expected_from(sm, Tm, worlds)
+                S = S * float(np.max(np.diag(Tm)[:3]))
+            elif op == "rezero":
                 D.rezero()
                 c = exq.centroid if exq.centroid is not None else np.zeros(3)
                 Tm = np.eye(4)
@@ -2052,6 +2089,9 @@ def run_derived(run, scene, sm, op, cls, par, case, worlds):
             return 0
         key = ("derived=%s sym=not_preserved%s" % (opkey, cause)) if cause else (
             "derived=%s sym=exception:%s instances=%s" % (opkey, type(e).__name__, inst))
+        if op in ("apply_translation", "apply_scale") and inst == "none" and isinstance(e, KeyError):
+            # the convenience routes end in Scene.apply_transform: its recorded KeyError on a graph without edges
+            key = "derived=apply_transform sym=exception:KeyError instances=none"
         if special == "voxel" and isinstance(e, AttributeError) and not cause:
             # `.vertices` of a geometry that has none: raised whether or not the grid is instanced
             key = "derived=%s sym=exception:AttributeError" % opkey
@@ -2101,14 +2141,22 @@ def run_derived(run, scene, sm, op, cls, par, case, worlds):
                 m2, e2 = match_placements(expected_from(sm, None, worlds), actual, S)
                 if not m2 and not e2:
                     key = "derived=%s sym=not_scaled factor=within_1e-5_of_one" % opkey
+            if op == "apply_translation":
+                # is the result the source, not moved at all?
+                m2, e2 = match_placements(expected_from(sm, None, worlds), actual, S)
+                if not m2 and not e2:
+                    tmax = float(np.abs(Tm[:3, 3]).max())
+                    key = "derived=apply_translation sym=not_moved translation=%s" % (
+                        "within_1e-8" if tmax <= NEAR_IDENTITY else "small_next_to_the_scene" if cls == "small_step" else "ordinary")
             if op == "subscene" and missing and not extra and par["node"] in sm.forest.nodes_geometry():
                 # is everything there but the instance that sits on the requested frame itself?
                 m3, e3 = match_placements(expected_from(sm, Tm, worlds, only=sub - {par["node"]}), actual, S)
                 if not m3 and not e3:
                     key = "derived=%s sym=missing_instance which=instance_on_the_requested_frame" % opkey
-            if sm.regime == "small" and "factor=within_1e-5_of_one" not in key and "instance_on_the_requested_frame" not in key:
+            if sm.regime == "small" and "factor=within_1e-5_of_one" not in key and "instance_on_the_requested_frame" not in key \
+                    and "sym=not_moved translation=" not in key:
                 key = small_regime_key(key, opkey, op, par, scene, sm, exq, expected, actual, S)
-        if "factor=within_1e-5_of_one" in key or "instance_on_the_requested_frame" in key:
+        if "factor=within_1e-5_of_one" in key or "instance_on_the_requested_frame" in key or "sym=not_moved translation=" in key:
             run.violation(key, "placements of the derived scene are not the source placements scaled / moved accordingly",
                           dict(case, op=op, option=cls, params=par, kinds=kinds, edge_class=ec))  # whatever the geometry class
             return bad
@@ -2159,15 +2207,108 @@ def run_derived(run, scene, sm, op, cls, par, case, worlds):
 # one scenario
 
 
-def scenario(run, tag, spec, rng, pyrng, n_edits, battery=False, recorded_edits=None, forced=None):
+def scenario(run, tag, spec, rng, pyrng, n_edits, battery=False, recorded_edits=None, forced=None, again=False):
     regime(spec.get("regime"))
     try:
-        _scenario(run, tag, spec, rng, pyrng, n_edits, battery, recorded_edits, forced)
+        _scenario(run, tag, spec, rng, pyrng, n_edits, battery, recorded_edits, forced, again)
     finally:
         regime(None)
 
 
-def _scenario(run, tag, spec, rng, pyrng, n_edits, battery, recorded_edits, forced):
+class _Collect:
+    """A `run` whose violations are collected instead of reported (everything else is passed on, or dropped)."""
+
+    def __init__(self, run, quiet=False):
+        self._run, self._quiet, self.got = run, quiet, []
+
+    def violation(self, key, what, case):
+        self.got.append((key, what, case))
+
+    def __getattr__(self, name):
+        if self._quiet and name in ("count", "skip", "case", "state", "note", "sample"):
+            return lambda *a, **k: None
+        return getattr(self._run, name)
+
+
+AGAIN = "history=derived_operations_then_new_frame_then_derived_again"
+AGAIN_OPS = (("subscene", "base"), ("apply_transform", "rigid"), ("apply_translation", "vector"), ("copy", "-"), ("add", "other"))
+
+
+def rebuilt(spec, edits):
+    """The same scene from scratch: built, edited, nothing read or derived in between."""
+    scene, sm = build(spec)
+    for rec in edits:
+        replay_edit(scene, sm, rec)
+    return scene, sm
+
+
+def derive_again(run, scene, sm, spec, case, rng, pyrng, battery, first_ops):
+    """
+    The derived operations RUN TWICE with a frame added in between: after every derived operation ran on the
+    scene (the sub-scene of the base frame among them: whatever the graph memoises for them is warm, and a copy
+    takes the graph's memo along), a new instance / a new geometry is hung below the base frame or an inner
+    frame, and the operations run again.  A key gets the AGAIN suffix when the same operation on the same scene
+    rebuilt from scratch (same edits, nothing derived before) is judged right.
+    """
+    n_first = len(case["edits"])
+    serial = 100 + n_first
+    rec = None
+    for kind in pyrng.sample(("add_instance", "add_geometry"), 2):
+        try:
+            rec = apply_edit(run, rng, pyrng, scene, sm, kind, serial)
+        except Exception as e:
+            run.violation("edit=%s sym=exception:%s" % (kind, type(e).__name__), "a scene edit raised",
+                          dict(case, edit=kind, error=repr(e)[:300]))
+            return
+        if rec is not None:
+            sm.hist.append(kind)
+            break
+    if rec is None:
+        return
+    recs = [rec]
+    if sm.geoms and sm.forest.depth(rec["node"]) < 4 and pyrng.random() < 0.6:
+        # ... and a further instance below the frame that was just added (a chain of two new frames)
+        g = pyrng.choice(sorted(sm.geoms))
+        M = edge_matrix(rng, "general" if sm.regime != "small" else pyrng.choice(["general", "none"]), 1.0, unit=sm.unit)
+        name2 = "x%d" % (serial + 1)
+        scene.graph.update(name2, rec["node"], matrix=M.copy(), geometry=g)
+        sm.forest.update(name2, rec["node"], M, geometry=g)
+        sm.hist.append("add_instance")
+        recs.append({"edit": "add_instance", "node": name2, "parent": rec["node"], "geometry": g, "matrix": M.tolist()})
+        run.count("derive_again:chain_of_two_new_frames")
+    case = dict(case, edits=case["edits"] + recs, n_first=n_first, derived_first=[list(o) for o in first_ops])
+    run.count("edit:" + rec["edit"])
+    run.count("derive_again:frame_added_below_%s" % ("the_base_frame" if rec["parent"] is None else "an_inner_frame"))
+    do_reads(run, scene, sm, ["bounds", "triangles", "dump"], case, after=rec["edit"], edited=True)
+    worlds, consistent = real_worlds_quiet(scene, sm)
+    if worlds is None or not consistent or not sm.all_connected():
+        run.skip("second round of derived operations skipped: scene graph inconsistent with its edges (C09)")
+        return
+    ops = [o for o in derived_ops(rng, pyrng, sm, True) if (o[0], o[1]) in AGAIN_OPS]
+    ops.insert(0, ("subscene", "base", {"node": sm.forest.base}))
+    if rec["parent"] is not None:
+        ops.insert(1, ("subscene", "inner", {"node": rec["parent"]}))
+    dig = sm.digest()
+    for op, cls, par in ops:
+        dcase = dict(case, derived=[op, cls, par])
+        col = _Collect(run)
+        run_derived(col, scene, sm, op, cls, par, dcase, None)
+        run.case("derived_again:%s:%s" % (op, cls), dig, op, cls, nontrivial=sm.nontrivial())
+        if not col.got:
+            continue
+        fresh = _Collect(run, quiet=True)
+        try:
+            f_scene, f_sm = rebuilt(spec, case["edits"])
+            run_derived(fresh, f_scene, f_sm, op, cls, par, dcase, None)
+        except Exception:
+            pass
+        fresh_keys = {k for k, _, _ in fresh.got}
+        for key, what, c in col.got:
+            # operation + symptom + history: the geometry classes and matrices of the scene take no part
+            run.violation(key if key in fresh_keys else " ".join(key.split(" ")[:2]) + " " + AGAIN, what, c)
+
+
+def _scenario(run, tag, spec, rng, pyrng, n_edits, battery, recorded_edits, forced, again=False):
     scene, sm = build(spec)
     case = {"spec": spec_to_json(spec), "edits": [], "tag": tag, "battery": battery}
     reads_all = list(READS)
@@ -2232,7 +2373,10 @@ def _scenario(run, tag, spec, rng, pyrng, n_edits, battery, recorded_edits, forc
         run.skip("derived operations not run: the base frame is not the root of its tree (reads are judged)")
         return
     use_worlds = None
-    for op, cls, par in derived_ops(rng, pyrng, sm, battery):
+    first_ops = derived_ops(rng, pyrng, sm, battery)
+    if again and not any((o[0], o[1]) == ("subscene", "base") for o in first_ops):
+        first_ops.append(("subscene", "base", {"node": sm.forest.base}))
+    for op, cls, par in first_ops:
         dcase = dict(case, derived=[op, cls, par])
         run_derived(run, scene, sm, op, cls, par, dcase, use_worlds)
         run.case("derived:%s:%s" % (op, cls), dig, op, cls, nontrivial=nt)
@@ -2240,6 +2384,8 @@ def _scenario(run, tag, spec, rng, pyrng, n_edits, battery, recorded_edits, forc
     last = case["edits"][-1]["edit"] if case["edits"] else None
     do_reads(run, scene, sm, ["bounds", "area", "triangles"], case, after="derived_ops" if last != "set_base_frame" else last,
              pre_edit=pre if last == "set_base_frame" else None)
+    if again and last != "set_base_frame" and not run.out_of_time(0.95):
+        derive_again(run, scene, sm, spec, case, rng, pyrng, battery, first_ops)
 
 
 def real_worlds_quiet(scene, sm):
@@ -2314,7 +2460,8 @@ def workload(run):
             run.inconclusive("fixed battery did not finish within the budget")
             break
         for n_edits in (0, 2):
-            scenario(run, tag, spec, run.rng, run.pyrng, n_edits, battery=True)
+            # every other scene (un-edited / edited in turn): the derived operations run a second time after a frame was added
+            scenario(run, tag, spec, run.rng, run.pyrng, n_edits, battery=True, again=(idx % 4 == (2 if n_edits else 0)))
         # one geometry object under two names edited in place; two geometries trading names
         F = (("alias_geometry", "vertex_imul"), ("alias_geometry", "vertex_setitem"),
              ("alias_geometry", "geom_transform"), ("swap_names",),
@@ -2347,7 +2494,7 @@ def workload(run):
             run.inconclusive("regime battery did not finish within the budget")
             break
         for n_edits in (0, 2):
-            scenario(run, tag, spec, run.rng, run.pyrng, n_edits, battery=True)
+            scenario(run, tag, spec, run.rng, run.pyrng, n_edits, battery=True, again=(n_edits == 2))
         scenario(run, tag + ":nudged", spec, run.rng, run.pyrng, 1, battery=True, forced=("edge_nudge",))
     run.note("battery_seconds", round(run.elapsed(), 1))
     k = 0
@@ -2363,7 +2510,8 @@ def workload(run):
             pool = KIND_EDITS if special else EDITS
             forced = tuple(run.pyrng.choice(pool) for _ in range(n_edits - 1)) + ("set_base_frame",)
         tag = "random" if reg is None else "random:" + reg
-        scenario(run, tag if special is None else "random:kinds:" + special, spec, run.rng, run.pyrng, n_edits, forced=forced)
+        scenario(run, tag if special is None else "random:kinds:" + special, spec, run.rng, run.pyrng, n_edits, forced=forced,
+                 again=run.pyrng.random() < 0.4)
     run.note("random_scenes", k)
 
 
@@ -2380,7 +2528,14 @@ def _replay(run, case, spec):
     scene, sm = build(spec)
     do_reads(run, scene, sm, list(READS), case, after="build")
     last = "build"
-    for rec in case.get("edits", []):
+    for i, rec in enumerate(case.get("edits", [])):
+        if case.get("derived_first") and i == case.get("n_first"):
+            # the derived operations that ran before this edit (their own judgement is not repeated)
+            for op, cls, par in case["derived_first"]:
+                try:
+                    run_derived(_Collect(run, quiet=True), scene, sm, op, cls, par, case, None)
+                except Exception:
+                    pass
         replay_edit(scene, sm, rec)
         last = rec["edit"]
         do_reads(run, scene, sm, list(READS), case, after=last, edited=True)
@@ -2388,6 +2543,18 @@ def _replay(run, case, spec):
     if case.get("derived"):
         op, cls, par = case["derived"]
         worlds, consistent = real_worlds_quiet(scene, sm)
-        if worlds is not None:
+        if worlds is not None and case.get("derived_first"):
+            col = _Collect(run)
+            run_derived(col, scene, sm, op, cls, par, case, None if consistent else worlds)
+            fresh = _Collect(run, quiet=True)
+            try:
+                f_scene, f_sm = rebuilt(spec, case.get("edits", []))
+                run_derived(fresh, f_scene, f_sm, op, cls, par, case, None)
+            except Exception:
+                pass
+            fresh_keys = {k for k, _, _ in fresh.got}
+            for key, what, c in col.got:
+                run.violation(key if key in fresh_keys else " ".join(key.split(" ")[:2]) + " " + AGAIN, what, c)
+        elif worlds is not None:
             run_derived(run, scene, sm, op, cls, par, case, None if consistent else worlds)
     run.case("replay", sm.digest(), str(case.get("derived")))
